@@ -50,6 +50,19 @@ def in_repo_traceback(tb):
 # --------------------------------------------------------------------------- worker
 
 def worker_main(pid, tier, seed, shard, nshards, budget, outpath, ncases):
+    reach = None
+    if os.environ.get('RV_REACH'):
+        from rvlib.monitor import reach      # statement-reach audit (records only, decides nothing)
+        if not reach.install(env.REPO):
+            reach = None
+    try:
+        _worker_main(pid, tier, seed, shard, nshards, budget, outpath, ncases)
+    finally:
+        if reach is not None:
+            reach.dump(os.path.join(OUT, 'reach', f'{pid}.{tier}.{seed}.{shard}.json'), f'{pid}.{tier}')
+
+
+def _worker_main(pid, tier, seed, shard, nshards, budget, outpath, ncases):
     env.setup()
     mod = load_check(pid)
     plan = mod.plan(tier, seed)
